@@ -16,6 +16,7 @@ import r_meta
 import r_scheme
 import r_wire
 import r_ladder
+import r_repstate
 import witness
 
 
@@ -152,6 +153,7 @@ def c06(facts, tier):
     rep.floor("R-FORMS(cert)", "family members", nm, 75)
     n = r_meta.check_forms(meta_engines(facts), rep, r_forms.families(facts))
     rep.floor("R-METAFLOW(forms)", "(scheme, family) pairs compared", n, 60)
+    repstate(facts, rep, ents, 400)
     witness.run(rep, facts.repo, doc_tests=(tier == "thorough"))
     return rep
 
@@ -196,6 +198,19 @@ def meta_engines(facts, schemes=("BFV", "CKKS", "BGV")):
 
 def _forms(fam, *stems):
     return [p for st in stems for _, p in sorted(fam.get(st, {}).items())]
+
+
+def repstate(facts, rep, entries, floor):
+    """R-REPSTATE over `entries` on each scheme projection."""
+    n = 0
+    for sc in ("BFV", "CKKS", "BGV"):
+        pf = project.ProjFacts(facts, sc)
+        before = len(rep.instances)
+        n += r_repstate.run(pf, rep, entries, rule="R-REPSTATE")
+        for i in rep.instances[before:]:
+            i["key"] = i["key"].replace("R-REPSTATE/", "R-REPSTATE/%s/" % sc, 1)
+    rep.floor("R-REPSTATE", "(entry, scheme, assumption) analyses", n, floor)
+    return n
 
 
 def _ops(facts, p, ty):
@@ -349,6 +364,11 @@ def c04(facts, tier):
                  "that X -> X^g permutes slots as documented, generator/NAF arithmetic, key-switch noise, plaintext "
                  "preservation under the new key.")
     r_pair.run_c04(facts, rep)
+    n = r_pair.run_table_siblings(facts, rep, lambda p: p.startswith("evaluator::Evaluator::") or p.startswith("key::"))
+    rep.floor("R-PAIR(tables)", "sibling-branch buffers with transforms", n, 1)
+    ents = [p for p in api_entries(facts) if any(w in facts.items[p]["name"] for w in
+            ("galois", "rotate", "conjugate", "keyswitching", "relinearize"))]
+    repstate(facts, rep, ents, 90)
     files = None if tier == "thorough" else {"src/util/galois.rs", "src/evaluator.rs", "src/key.rs"}
     n = r_contra.run_index(facts, rep, files)
     rep.floor("R-CONTRA(index)", "length-guarded index uses", n, 1)
@@ -402,6 +422,9 @@ def c18(facts, tier):
     rep.floor("R-GUARD(complete)", "finish functions checked", n, 8)
     n = r_scheme.run_commute(facts, rep)
     rep.floor("R-COMMUTE", "message handlers", n, 1)
+    ents = [p for p in facts.items if p.startswith("multiparty::participant::") and facts.items[p]["vis"] == "pub"
+            and facts.items[p].get("impl_self")]
+    repstate(facts, rep, ents, 150)
     return rep
 
 
@@ -417,6 +440,9 @@ def c14(facts, tier):
     n, g = r_wire.run(facts, rep)
     rep.floor("R-WIRE(rw)", "serialization triples", g, 30)
     rep.floor("R-WIRE(rw)", "(triple, scheme) grammar comparisons", n, 40)
+    writers = [p for p in facts.items if facts.items[p]["name"].startswith("serialize") and
+               not facts.items[p]["name"].startswith("serialized") and "std::io::Error" in facts.items[p].get("ret", "")]
+    repstate(facts, rep, writers, 110)
     return rep
 
 
